@@ -800,6 +800,11 @@ def prepare_dump(data: IOData, allow_changes: bool, filename: str) -> IOData:
     angmom_kinds = {}
     for shell in data.obasis.shells:
         for angmom, kind in zip(shell.angmoms, shell.kinds):
+            if (angmom, kind) not in CONVENTIONS:
+                raise PrepareDumpError(
+                    f"The Molden format does not support shells with angmom={angmom} and kind='{kind}'.",
+                    filename,
+                )
             if angmom_kinds.setdefault(angmom, kind) != kind:
                 raise PrepareDumpError(
                     "Molden format does not support mixed pure+Cartesian functions for one "
